@@ -661,12 +661,15 @@ def replay_rebuilt(model, seed):
 
     torch.manual_seed(seed)
     A = _awq_cls()
-    for (o, i) in ((8, 128), (16, 256), (4, 512), (8, 1024), (2, 256), (1, 128)):
+    for (o, i) in ((8, 128), (16, 256), (4, 512), (8, 1024), (4, 128), (12, 1536)):      # admissible: rows a multiple of 4, columns of 128
         w = torch.randn(o, i, dtype=torch.float16)
         sc, zp = MaxOptimizer()(w, bits=4, axis=0, group_size=128)
         q = AffineQuantizer.apply(w, qint4, 0, 128, sc, zp)
-        a = A(qint4, 0, 128, q.size(), q.stride(), q._data.unpack(), q._scale, q._zeropoint)
-        want = a.dequantize()
+        try:
+            a = A(qint4, 0, 128, q.size(), q.stride(), q._data.unpack(), q._scale, q._zeropoint)
+            want = a.dequantize()
+        except Exception:
+            continue    # building the tensor itself is another clause (awq-tensor-construction-runs)
         try:
             a2 = A(qint4, 0, 128, a.size(), a.stride(), a._data, a._scale, a._zeropoint)
             got = a2.dequantize()
@@ -769,6 +772,12 @@ def replay_file(path):
         r = replay_layouts({}, 0, "v2")
     elif inst.get("layout") == "v1":
         r = replay_layouts({}, 0, "v1", inst.get("reorder", False))
+    elif "rebuilt-from-its-own-parts" in rec.get("obligation", ""):
+        r = replay_rebuilt({}, 0)
+    elif "converting-back-leaves" in rec.get("obligation", ""):
+        r = replay_conv({}, 0)
+    elif "serialized-in-the-standard-layout" in rec.get("obligation", ""):
+        r = replay_save({}, 0)
     else:
         r = replay_repr({}, 0)
     print(json.dumps(r, indent=1, default=str))
